@@ -723,26 +723,38 @@ impl Run {
                         proj.iter().map(|i| r[*i].clone()).collect()
                     }
                 };
-                let mut gi = 0usize;
+                // rows whose truth value the documentation leaves open may or may
+                // not appear: track every position in `got` that is consistent so far
+                let mut reachable: std::collections::BTreeSet<usize> = [0usize].into_iter().collect();
                 for (r, hit) in table.rows.values().zip(m.iter()) {
                     let want = project(r);
-                    match hit {
-                        Some(true) => {
-                            if got.get(gi) != Some(&want) {
-                                return Err(Fail::new(format!("{p} select-wrong-rows"), format!("select result row #{gi} is {:?}, expected {:?}: {trace}", got.get(gi), want)));
+                    let mut next = std::collections::BTreeSet::new();
+                    for g in &reachable {
+                        let matches_here = got.get(*g) == Some(&want);
+                        match hit {
+                            Some(true) => {
+                                if matches_here {
+                                    next.insert(g + 1);
+                                }
                             }
-                            gi += 1;
-                        }
-                        Some(false) => {}
-                        None => {
-                            if got.get(gi) == Some(&want) {
-                                gi += 1;
+                            Some(false) => {
+                                next.insert(*g);
+                            }
+                            None => {
+                                next.insert(*g);
+                                if matches_here {
+                                    next.insert(g + 1);
+                                }
                             }
                         }
                     }
+                    if next.is_empty() {
+                        return Err(Fail::new(format!("{p} select-wrong-rows"), format!("select result {got:?} is not the model's filtered, key-ordered, projected rows (first inconsistency at model row {:?}): {trace}", want)));
+                    }
+                    reachable = next;
                 }
-                if gi != got.len() {
-                    return Err(Fail::new(format!("{p} select-wrong-rows"), format!("select returned {} rows, {} of them expected: {trace}; got {:?}", got.len(), gi, got)));
+                if !reachable.contains(&got.len()) {
+                    return Err(Fail::new(format!("{p} select-wrong-rows"), format!("select returned {} rows, which is not what the model's rows allow: {trace}; got {:?}", got.len(), got)));
                 }
                 if m.iter().any(|x| *x == Some(true)) && m.iter().any(|x| *x == Some(false)) {
                     self.classes.push("select-splits-rows");
